@@ -30,6 +30,7 @@ TInit ==
   /\ progP = <<>> /\ progV = <<>> /\ pcP = 1 /\ pcV = 1
   /\ absP = <<>> /\ absV = <<>> /\ chan = <<>>
   /\ verdict = "idle"
+  /\ tamper = NoTamper
 
 THeader == Is("header") /\ UNCHANGED vars
 
@@ -42,6 +43,7 @@ TReset ==
   /\ pcP' = 1 /\ pcV' = 1
   /\ absP' = <<>> /\ absV' = <<>> /\ chan' = <<>>
   /\ verdict' = "none"
+  /\ UNCHANGED tamper
 
 Sched(prog, pc) ==
   Layer = "prop" \/ (pc <= Len(prog) /\ prog[pc].op = Ev.op /\ prog[pc].kind = Ev.kind)
@@ -73,7 +75,7 @@ TVerdict ==
   /\ chan = <<>> /\ absP = absV
   /\ Layer = "ref" => (pcP = Len(progP) + 1 /\ pcV = Len(progV) + 1)
   /\ verdict' = "ok"
-  /\ UNCHANGED <<sh, progP, progV, pcP, pcV, absP, absV, chan>>
+  /\ UNCHANGED <<sh, progP, progV, pcP, pcV, absP, absV, chan, tamper>>
 
 TNext == THeader \/ TReset \/ TP \/ TV \/ TVerdict
 TraceSpec == TInit /\ [][TNext]_tvars
